@@ -1,4 +1,4 @@
-/- C02 — forwarding.  (a) `admit`: the forward-admission decision, composed from the GENERATED
+/- C02 — forwarding.  (a) `admitFwd`: the forward-admission decision, composed from the GENERATED
    translations of `FundedChannel::internal_htlc_satisfies_config` and `check_incoming_htlc_cltv`
    (Generated/Timing.lean) in the order `ChannelManager::can_forward_htlc_should_intercept` runs them.
    (b) `FwdProto`: a small machine for ONE forwarded HTLC at node B (upstream A–B, downstream B–C):
@@ -30,7 +30,7 @@ def requiredFee (cfg : FwdCfg) (outAmt : Nat) : Option Nat :=
     config is never changed after channel creation), then `check_incoming_htlc_cltv(cur_height,
     outgoing_cltv_value, msg.cltv_expiry, MIN_CLTV_EXPIRY_DELTA)` (generated `checkIncomingHtlcCltv`).
     `height` is `cur_height = best_block.height + 1`. -/
-def admit (cfg : FwdCfg) (height inAmt inCltv outAmt outCltv : Nat) : Except FailReason Unit :=
+def admitFwd (cfg : FwdCfg) (height inAmt inCltv outAmt outCltv : Nat) : Except FailReason Unit :=
   match htlcSatisfiesConfig inAmt inCltv outAmt outCltv cfg.feeProp cfg.feeBase cfg.cltvDelta with
   | .error e => .error e
   | .ok _ => checkIncomingHtlcCltv height outCltv inCltv MIN_CLTV_EXPIRY_DELTA
